@@ -21,6 +21,7 @@ def explore(ctx):
     cc.decimal_stream(ctx, 1500 if ctx.quick else 15000)
     cc.decimal_stream(ctx, 1500 if ctx.quick else 15000, sum_negative=True)
     narrow_parameter_stream(ctx)
+    cc.infinity_tie_stream(ctx, 200 if ctx.quick else 2000, 'c05_inf_tie')
     # an adjacency object used for several arrays must give each the leaves it would get alone
     from . import grid_common
     grid_common.reused_adjacency_stream(ctx, 100 if ctx.quick else 1000)
